@@ -109,18 +109,42 @@ def make_chart(g):
 
 def classify(label, info, item):
     # the recorded finding is one specific history: the client was preempted inside Interpreter._queue_event
-    # (between computing the insertion index and inserting) and the runner executed a macro step meanwhile
-    if label == 'every_event_consumed_once_fifo' and (info or {}).get('runner_stepped_while_client_inside_queue_event'):
-        return 'queue_race_bisect_insert'
+    # between computing the insertion index (bisect) and `queue.insert(position, ...)`, the runner executed a macro
+    # step meanwhile, and as a result a due event sits behind a delayed one: it is left unconsumed (no event is
+    # consumed twice, the consumed ones are in FIFO order).  Anything else -- another window, a duplicate, a
+    # reordering -- is a different violation and is reported.
+    info = info or {}
+    if label == 'every_event_consumed_once_fifo' and info.get('client_preempted_between_bisect_and_insert'):
+        queued, consumed = info.get('queued') or [], info.get('consumed') or []
+        no_dup = len(set(consumed)) == len(consumed)
+        in_order = consumed == [t for t in queued if t in consumed]
+        if no_dup and in_order and len(consumed) < len(queued) and 'qd' in (info.get('script') or []):
+            return 'queue_race_bisect_insert'
     return label
 
 
-def race_window(tl):
+def insert_line():
+    """line number of `queue.insert(position, ...)` in the current source of Interpreter._queue_event (None if absent)"""
+    import inspect
+    from sismic.interpreter import Interpreter
+    try:
+        src, start = inspect.getsourcelines(Interpreter._queue_event)
+    except (OSError, TypeError):
+        return None
+    for i, ln in enumerate(src):
+        if 'queue.insert(position' in ln:
+            return start + i
+    return None
+
+
+def race_window(tl, at_line=None):
+    """the runner finished a macro step while the client was suspended inside _queue_event (at_line: suspended just
+    before that source line)"""
     inside = False
     for x in tl:
         if x[0] == 'switch':
             if x[1] == 'main' and str(x[3]).startswith('line:_queue_event'):
-                inside = True
+                inside = at_line is None or str(x[3]) == 'line:_queue_event:%d' % at_line
             elif x[2] == 'main':
                 inside = False
         elif x[0] == 'exec_end' and inside:
@@ -278,7 +302,9 @@ def harness(g, job, level, canary=False):
     info = lambda: {'script': job['script'], 'execute_all': job['all'],   # noqa: E731
                     'timeline': [list(x) for x in tl if x[0] != 'switch'][-40:],
                     'switches': [list(x) for x in switches][-25:],
-                    'runner_stepped_while_client_inside_queue_event': race_window(tl)}
+                    'runner_stepped_while_client_inside_queue_event': race_window(tl),
+                    'client_preempted_between_bisect_and_insert': (race_window(tl, insert_line())
+                                                                   if insert_line() is not None else False)}
     for t in sch.threads[1:]:
         if t.exc is not None and not isinstance(t.exc, S.Killed):
             from ..symex import Infeasible, PathEnd
